@@ -2364,8 +2364,21 @@ fn extract_join_key(arrays: &[ArrayRef], row: usize) -> JoinKey {
             if let Some(a) = arr.as_any().downcast_ref::<arrow::array::StringArray>() {
                 return JoinValue::String(a.value(row).to_string());
             }
+            if let Some(a) = arr.as_any().downcast_ref::<arrow::array::Date32Array>() {
+                return JoinValue::Int64(a.value(row) as i64);
+            }
+            if let Some(a) = arr.as_any().downcast_ref::<arrow::array::BooleanArray>() {
+                return JoinValue::Int64(a.value(row) as i64);
+            }
 
-            JoinValue::Null
+            // Any other key type: a non-null value must never become Null
+            // (Null keys match nothing, so the spilled join silently lost
+            // every row). Both sides carry the same type, so the rendered
+            // value compares equal exactly when the values do.
+            match arrow::util::display::array_value_to_string(arr.as_ref(), row) {
+                Ok(v) => JoinValue::String(v),
+                Err(_) => JoinValue::Null,
+            }
         })
         .collect();
 
